@@ -11,7 +11,7 @@ import json, os, shutil, subprocess, sys, time
 
 VERIF = os.path.dirname(os.path.dirname(os.path.abspath(__file__)))
 SEEDED = os.path.join(VERIF, "seeded")
-ENV = dict(os.environ, CARGO_NET_OFFLINE="true")
+ENV = dict(os.environ, CARGO_NET_OFFLINE="true", FIV_EVIDENCE_DIR="/tmp/fiv-seeded-evidence")
 
 
 def sh(cmd, cwd, timeout=3600):
